@@ -10,7 +10,7 @@ use crate::erased::{with_stack, Ad, DynTarget, InfallibleTarget, Visitor};
 use crate::json::J;
 use crate::model::{StackModel, TOp, R};
 use crate::prop::{Opts, Property, RunOut, Tier, Violation};
-use crate::props::c03::HOp;
+use crate::props::c03::{hint_mode, HOp, Vague};
 use crate::props::c09::{ref_pixel, KINDS7};
 use crate::rng::{det_hash, Hash64, Src};
 use crate::runner::guarded;
@@ -555,13 +555,13 @@ impl Visitor for TargetOpVisitor<'_> {
     type Out = Result<(), SimError>;
     fn visit<C: SimColor>(&mut self, top: &mut DynTarget<'_, C>, _b: &[Rectangle]) -> Self::Out {
         match self.op {
-            TOp::DrawIter(px) => top.draw_iter(px.iter().map(|(x, y, c)| Pixel(Point::new(*x, *y), C::from_u32(*c)))),
+            TOp::DrawIter(px) => top.draw_iter(Vague { it: px.iter().map(|(x, y, c)| Pixel(Point::new(*x, *y), C::from_u32(*c))), mode: hint_mode(self.op) }),
             TOp::FillContiguous { area, colours, repeat } => {
                 let a = crate::erased::rect_of(area);
                 let it = colours.iter().map(|c| C::from_u32(*c));
                 match repeat {
-                    Some(r) => top.fill_contiguous(&a, it.chain(core::iter::repeat(C::from_u32(*r)))),
-                    None => top.fill_contiguous(&a, it),
+                    Some(r) => top.fill_contiguous(&a, Vague { it: it.chain(core::iter::repeat(C::from_u32(*r))), mode: hint_mode(self.op) }),
+                    None => top.fill_contiguous(&a, Vague { it, mode: hint_mode(self.op) }),
                 }
             }
             TOp::FillSolid { area, colour } => top.fill_solid(&crate::erased::rect_of(area), C::from_u32(*colour)),
